@@ -9,9 +9,25 @@ def run(tier):
     vw = vlib.build_harness()
     res = vlib.Results("C03")
     jobs, ws, man = scanlib.corpora(tier, vw, n_gen_quick=96, n_gen_thorough=800, include_std=False, include_repo=False)
+    # user rules whose filters depend on the package being analysed (state captured from an earlier
+    # package must not leak into a later one)
+    with open(os.path.join(ws, "go.mod"), "a") as f:
+        f.write("\nrequire github.com/quasilyte/go-ruleguard/dsl v0.3.22\n")
+    os.makedirs(os.path.join(ws, "rules"))
+    rules = os.path.join(ws, "rules", "pkgdep.go")
+    open(rules, "w").write('''package gorules
+
+import "github.com/quasilyte/go-ruleguard/dsl"
+
+func pkgDependent(m dsl.Matcher) {
+	m.Match(`fi()`).Where(m.File().PkgPath.Matches(`[02468]$`)).Report(`fi() in a package whose path ends in an even digit`)
+	m.Match(`$x++`).Where(m["x"].Object.IsGlobal()).Report(`package-level $x incremented`)
+	m.Match(`gi`).Where(m.File().Name.Matches(`^common`)).Report(`gi used in a common file`)
+}
+''')
     nh = 10 if tier == "quick" else 150
     mf = 36 if tier == "quick" else 120
-    scanlib.run_sharded(res, vw, "c03", jobs, {"C03"}, extra=["-histories", str(nh), "-maxfiles", str(mf)], mix=False,
+    scanlib.run_sharded(res, vw, "c03", jobs, {"C03"}, extra=["-histories", str(nh), "-maxfiles", str(mf), "-rgrules", rules], mix=False, cwd=ws,
                         per_task_extra=lambda idx, label, work: ["-seed", str(vlib.seed() * 1000 + idx)])
     # E2: the real CLI with permuted / split package arguments
     bins = vlib.build_bins("plain")
